@@ -18,11 +18,12 @@ St == [files |-> files, store |-> store, loc |-> loc, pc |-> pc, queue |-> queue
        listing |-> listing, order |-> order, k |-> k, faults |-> faults,
        iia |-> IndexImpliesAll, pia |-> PublishedImpliesAll, rs |-> RefreshSafe, whole |-> SkippedIsWhole,
        skips |-> {i \in Images : RefreshSkips(i)}]
-\* the actions that relate the two states of a transition (Crash and Fail relate the same pairs of states;
-\* the harness realises them differently: BaseException vs OSError)
-Acts == {a \in {"Start", "NextImage", "BeginPut", "EndPut", "Rename", "Finish", "Crash", "Fail"} :
+\* the actions that relate the two states of a transition (Crash, Fail and Refuse relate the same pairs of states;
+\* the harness realises them differently: BaseException / OSError at the put_item boundary or from its source /
+\* OSError from the open() of the store-side file inside the real put_item)
+Acts == {a \in {"Start", "NextImage", "BeginPut", "EndPut", "Rename", "Finish", "Crash", "Fail", "Refuse"} :
            CASE a = "Start" -> Start [] a = "NextImage" -> NextImage [] a = "BeginPut" -> BeginPut
              [] a = "EndPut" -> EndPut [] a = "Rename" -> Rename [] a = "Finish" -> Finish
-             [] a = "Crash" -> Crash [] a = "Fail" -> Fail}
+             [] a = "Crash" -> Crash [] a = "Fail" -> Fail [] a = "Refuse" -> Refuse}
 EmitEdge == PrintT(<<"E", ToJson([s |-> St, t |-> St', acts |-> Acts])>>)
 =============================================================================
